@@ -159,7 +159,7 @@ def _limited_scan_specs(ctx, rng):
 
 def run(ctx):
     rng = random.Random(ctx.seed * 7919 + 13)
-    n_rule, n_lrule, n_diag = (3, 4, 4) if ctx.quick else (4, 5, 5)
+    n_rule, n_lrule, n_diag = (3, 4, 4) if ctx.quick else (4, 4, 5)
     mcs = [bc.model_check("rule", n_rule), bc.model_check("lrule", n_lrule), bc.model_check("diag", n_diag)]
     specs = []
     meta = {}
